@@ -99,11 +99,17 @@ func DeleteBundle(repo string, stores context2.Stores, bundleID string, opts ...
 	// 2. remove all file entry index files for that bundle
 	indexFiles := bundle.BundleEntriesFileCount
 	if indexFiles == 0 && options.ignoreBundleError {
-		var e error
-		for i := uint64(0); e == nil; i++ {
-			// delete everything until an error is found
+		for i := uint64(0); ; i++ {
+			// delete everything until a missing index file or an error is found.
+			// NOTE: we can't rely on Delete to fail on a missing key, since not all stores do.
 			archivePathToBundleFileList := model.GetArchivePathToBundleFileList(repo, bundleID, i)
-			e = store.Delete(context.Background(), archivePathToBundleFileList)
+			exists, e := store.Has(context.Background(), archivePathToBundleFileList)
+			if e != nil || !exists {
+				break
+			}
+			if e = store.Delete(context.Background(), archivePathToBundleFileList); e != nil {
+				break
+			}
 		}
 	} else {
 		for i := uint64(0); i < indexFiles; i++ {
